@@ -150,6 +150,37 @@ let p_slot (s : nslot) =
   add "["; p_nat s.sl_to; add ","; p_z s.sl_order2; add ","; p_opt p_n s.sl_mark; add ","; p_bool s.sl_ring; add "]"
 let p_smol (m : smol) = add "["; p_list p_satom m.sm_atoms; add ","; p_list (p_list p_slot) m.sm_nbrs; add "]"
 
+(* ---------- histories ---------- *)
+let j_key = function JNull -> KOther | j -> KStr (j_str j)
+let j_val = function JInt s -> VInt (z_of_decimal s) | JBool true -> VInt (z_of_int 1) | JBool false -> VInt Z0 | _ -> VOther
+let j_dict j = j_list (j_pair j_key j_val) j
+let j_mut = function
+  | JArr [JStr "setitem"; k; v] -> MSetItem (j_str k, j_val v)
+  | JArr [JStr "del"; k] -> MDelItem (j_str k)
+  | JArr [JStr "add"; x] -> MAdd (j_str x)
+  | JArr [JStr "clear"] -> MClear
+  | _ -> failwith "mutation expected"
+let j_op = function
+  | JArr [JStr "new"; d] -> OpNewDict (j_dict d)
+  | JArr [JStr "set"; JArr [JStr "name"; n]] -> OpSet (RName (j_str n))
+  | JArr [JStr "set"; JArr [JStr "held"; k]] -> OpSet (RHeld (j_nat k))
+  | JArr [JStr "set"; JArr [JStr "junk"]] -> OpSet RJunk
+  | JArr [JStr "get"] -> OpGet
+  | JArr [JStr "preset"; n] -> OpGetPreset (j_str n)
+  | JArr [JStr "alpha"] -> OpGetAlphabet
+  | JArr [JStr "mut"; k; m] -> OpMutate (j_nat k, j_mut m)
+  | JArr [JStr "dec"; x; c; a] -> OpDecode (j_str x, j_bool c, j_bool a)
+  | JArr [JStr "enc"; x; c; a] -> OpEncode (j_str x, j_bool c, j_bool a)
+  | _ -> failwith "op expected"
+let p_key = function KStr s -> p_str s | KOther -> add "null"
+let p_val = function VInt z -> p_z z | VOther -> add "null"
+let p_obs = function
+  | ObsNone -> add "null"
+  | ObsErr e -> add "{\"err\":\""; add (exn_name e); add "\"}"
+  | ObsDict d -> add "{\"dict\":"; p_list (p_pair p_key p_val) d; add "}"
+  | ObsSet s -> add "{\"set\":"; p_list p_str s; add "}"
+  | ObsTrans r -> add "{\"trans\":"; p_res (p_pair p_str (p_list p_amap)) r; add "}"
+
 let handle (req : json) : unit =
   match req with
   | JArr (JStr op :: args) -> begin
@@ -187,6 +218,9 @@ let handle (req : json) : unit =
                     | None -> add "{\"ok\":false,\"why\":\"unreadable\"}"
                     | Some m2 -> add "{\"ok\":"; p_bool (smol_eqb m m2); add "}"))
     | "elements", [] -> p_list p_str elements
+    | "hist", [ops] -> p_list p_obs (snd (run init_world (j_list j_op ops)))
+    | "alphabet_of", [t] -> p_list p_str (compute_alphabet (j_table t))
+    | "valid_key", [k] -> p_bool (valid_key (j_str k))
     | "idx_to", [n] -> p_res (p_list p_str) (get_selfies_from_index (j_z n))
     | "modernize", [s] -> p_res p_str (modernize_symbol (j_str s))
     | "atom_sym", [t; s] ->
